@@ -1917,3 +1917,37 @@ def constwrite(repo, facts=None):
         raise AnalysisError(f"emboss_prelude.h: only {nw} WriteToTextStream methods recognised")
     res.analysed = [TEMPLATES, "runtime/cpp/emboss_prelude.h"]
     return res
+
+
+def fieldreader(repo):
+    """R-FIELDREADER (C16/C07): _render_expression hands field references to `reader.render_field` and `$present(...)` to
+    `reader.render_existence`; which reader is used depends on where the expression sits (structure view, virtual view,
+    [requires] validator).  Every class of header_generator.py that implements one of the two methods implements both,
+    and neither is a stub that asserts: inside `[requires]` the front end accepts `$present(this)`, which is constant
+    (and never rendered) for an unconditional field but a run-time expression for a conditional one -- the validator's
+    reader used to `assert False` there."""
+    res = RuleResult("R-FIELDREADER")
+    hg = repo.mod(HG)
+    classes = [n for n in ast.walk(hg.tree) if isinstance(n, ast.ClassDef)]
+    readers = []
+    for c in classes:
+        meths = {st.name: st for st in c.body if isinstance(st, ast.FunctionDef)}
+        if "render_field" in meths or "render_existence" in meths:
+            readers.append((c, meths))
+    if len(readers) < 3:
+        raise AnalysisError(f"header_generator: only {len(readers)} field-reader classes found")
+    bases = {c.name: [ast.unparse(b) for b in c.bases] for c, _ in readers}
+    for c, meths in readers:
+        for need in ("render_field", "render_existence"):
+            res.instances += 1
+            inherited = any(b in {k.name for k, mm in readers if need in mm} for b in bases[c.name])
+            if need not in meths and not inherited and not c.name.startswith("_FieldRenderer"):
+                res.add(f"{hg.rel}|{c.name}|{need}|missing", f"field reader {c.name} has no {need}", hg.rel, c.lineno, c.name)
+            if need in meths:
+                for n in ast.walk(meths[need]):
+                    if isinstance(n, ast.Assert) and isinstance(n.test, ast.Constant) and not n.test.value:
+                        res.add(f"{hg.rel}|{c.name}|{need}|stub", f"{c.name}.{need} is `assert False`: an expression the front end accepts in that "
+                                "position (`[requires: $present(this) && this < 5]` on a conditional field) ends the back end with "
+                                "AssertionError", hg.rel, n.lineno, f"{c.name}.{need}")
+    res.analysed = [hg.rel]
+    return res
